@@ -170,6 +170,16 @@ type exec struct {
 	caseWall  time.Duration
 	variant   string
 	cur       string
+	nSamples  int
+}
+
+// Two samples per stage, from the first batch of the plain variant only, so
+// that the evidence file shows every stage.
+func (x *exec) wantSample() bool { return x.c.Batch == 0 && x.variant == "plain" && x.nSamples < 2 }
+
+func (x *exec) sample(v interface{}) {
+	x.nSamples++
+	x.c.Sample(v)
 }
 
 // begin journals the case about to run (vp.Child.Begin).
